@@ -218,6 +218,35 @@ def gen_spec(rng, backend=None, max_n=3):
     return spec
 
 
+def malform(rng, spec):
+    """Malformed stream: the same invalid input must be rejected (or accepted) alike in every convention."""
+    spec = copy.deepcopy(spec)
+    kind = rng.choice(["gauss-r-len", "gauss-V-asym", "gauss-V-unphysical", "param-inf", "mode-range"])
+    g = [o for o in spec["ops"] if o["op"] == "Gaussian"]
+    if kind.startswith("gauss") and not g:
+        r, V = rand_sympl_cov(rng, 1)
+        g = [{"op": "Gaussian", "V": V, "r": r, "m": [0], "decomp": rng.random() < 0.5, "dg": False}]
+        spec["ops"].insert(0, g[0])
+        spec["backend"] = "gaussian"
+        spec.pop("cutoff", None)
+        spec["ops"] = [o for o in spec["ops"] if o["op"] not in ("Vgate", "Kgate", "Fock", "Catstate", "GKP", "MSgate", "MeasureFock")]
+    if kind == "gauss-r-len":
+        g[0]["r"] = g[0]["r"] + [0.5]
+    elif kind == "gauss-V-asym":
+        g[0]["V"][0][-1] += 0.3
+    elif kind == "gauss-V-unphysical":
+        g[0]["V"] = [[0.01 * x for x in row] for row in g[0]["V"]]
+    elif kind == "param-inf":
+        for o in spec["ops"]:
+            if o["op"] in POWERS:
+                o["p"] = [float("inf")]
+                break
+    else:
+        spec["ops"][-1]["m"] = [spec["n"] + 1] * len(spec["ops"][-1]["m"])
+    spec["malformed"] = kind
+    return spec
+
+
 def _sym(a):
     a = np.array(a)
     return [[float(x) for x in row] for row in np.round((a + a.T) / 2, 3)]
@@ -539,6 +568,9 @@ def _search(ctx, rng):
     for i in range(n_cases):
         be = ["gaussian", "bosonic", "fock", "gaussian"][i % 4]
         spec = gen_spec(rng, be)
+        if rng.random() < 0.08:
+            spec = malform(rng, spec)
+            be = spec["backend"]
         h1, h2 = draw_hbar_pair(rng)
         try:
             bad, nobs = compare_pair(spec, h1, h2)
@@ -549,11 +581,12 @@ def _search(ctx, rng):
             if k1 != k2:
                 ctx.counterexample("%s:run-raises" % be, "the experiment runs at hbar=%s (%s) but not at hbar=%s (%s)" % (h1, k1, h2, k2),
                                    {"check": "pair", "spec": spec, "h1": h1, "h2": h2, "obs": "run"})
-            ctx.case({"spec": spec, "h": [h1, h2], "error": type(e).__name__}, nontrivial=False, bucket="error:" + type(e).__name__)
+            ctx.case({"spec_hash": spec_seed(spec), "malformed": spec.get("malformed"), "h": [h1, h2], "error": type(e).__name__, "both": [k1, k2]},
+                     nontrivial=False, bucket="error:%s:%s" % (spec.get("malformed", "valid"), type(e).__name__))
             continue
         nt = has_hbar_op(spec) and h1 != 2 and h2 != 2
         ctx.case({"backend": be, "n": spec["n"], "ops": [o["op"] for o in spec["ops"]], "h": [h1, h2], "spec_hash": spec_seed(spec)},
-                 nontrivial=nt, bucket=be)
+                 nontrivial=nt, bucket=be if "malformed" not in spec else "malformed-accepted:" + spec["malformed"])
         for o in spec["ops"]:
             ctx.hist["op:" + o["op"]] = ctx.hist.get("op:" + o["op"], 0) + 1
         ctx.extra["observables_compared"] = ctx.extra.get("observables_compared", 0) + nobs
